@@ -361,7 +361,10 @@ def gstep (pi : Nat) (s : W × Option Bool) (st : GStep) : W × Option Bool :=
 def runGroup (pi : Nat) (steps : List GStep) (w : W) : W × Option Bool := steps.foldl (gstep pi) (w, none)
 
 /-- `supervisord.remove_process_group(name)` for the pool in slot `pi` (which is in `process_groups`) -/
-def removeRun (pi : Nat) (w : W) : W × Option Bool := runGroup pi groupRemoveSteps w
+def removeRun (pi : Nat) (w : W) : W × Option Bool :=
+  match w.pools[pi]? with
+  | none => (w, none)
+  | some _ => runGroup pi groupRemoveSteps w
 def removeOp (pi : Nat) (w : W) : W := if w.err.isSome then w else (removeRun pi w).1
 
 /-- `supervisord.add_process_group(config)` for the pool configured in slot `pi` -/
